@@ -357,6 +357,31 @@ fn one_case(ctx: &mut Ctx, index: u64, bytes: &[u8], class: &str, r: &mut Rng) {
             ctx.violation("err_from_memory", "decoding the edited encoding failed".into(), index, bytes);
             return;
         };
+        // saving the edited map over an earlier save (one scratch file per worker, reused by every case,
+        // so the previous content is usually longer or shorter): the file must hold exactly this encoding
+        if index % 8 == 0 && !ctx.out.is_empty() {
+            let dir = std::path::Path::new(&ctx.out).parent().map(|p| p.to_path_buf()).unwrap_or_else(std::env::temp_dir);
+            let path = dir.join(format!("c03-save-{}-{}.osu", std::process::id(), ctx.shard));
+            match m.encode_to_path(&path) {
+                Ok(()) => {
+                    ctx.count("saves_over_an_existing_file");
+                    match std::fs::read(&path) {
+                        Ok(on_disk) if on_disk == edited_txt.as_bytes() => {}
+                        Ok(on_disk) => {
+                            ctx.violation(
+                                "saved_file_differs",
+                                format!("encode_to_path over an existing file left {} bytes on disk, the encoding has {} (edits: {described})", on_disk.len(), edited_txt.len()),
+                                index,
+                                bytes,
+                            );
+                            return;
+                        }
+                        Err(e) => ctx.inconclusive(format!("cannot read back the scratch file {}: {e}", path.display())),
+                    }
+                }
+                Err(e) => ctx.inconclusive(format!("encode_to_path to the scratch file {} failed: {e}", path.display())),
+            }
+        }
         // 1. the edited values read back exactly
         for e in &edits {
             if let Err(why) = (e.verify)(&got) {
